@@ -10,9 +10,9 @@ set_option linter.unusedVariables false
 namespace WaitN
 
 /-- a record that dies in this step: the step is the `free` / return of its owner t, the record is one
-    of t's, and (if F3 has not struck) its dequeue call is over -/
+    of t's, and its dequeue call is over -/
 theorem dies_facts {s s' : State} {ev : Event} {r : Rid} (hr : Reachable s) (hs : step s ev = .ok s')
-    (hf3 : s'.f3 = false) (hl : (s.rcd r).live = true) (hd : (s'.rcd r).live = false) :
+    (hl : (s.rcd r).live = true) (hd : (s'.rcd r).live = false) :
     ∃ t e, ev = .thr t e ∧ r ∈ (s.fr t).recs ∧ (s.rcd r).owner = t ∧ (s.rcd r).deqd = true
       ∧ (s.pc t = .wFree ∨ ∃ r0, s.pc t = .wRet r0) ∧ (s.fr t).frees = 0 := by
   cases ev with
@@ -23,7 +23,7 @@ theorem dies_facts {s s' : State} {ev : Event} {r : Rid} (hr : Reachable s) (hs 
     · simp at hs
   | thr t e =>
     simp only [step] at hs
-    have hq := qinv_of_reachable hr (f3_mono hs hf3)
+    have hq := qinv_of_reachable hr
     have hown := own_of_reachable hr
     have hli := linv_of_reachable hr t
     rcases quiet_or_structural hs with q | st
